@@ -393,4 +393,54 @@ theorem errorMeaning_of_error {H : Hier} {W : List Step} {skip : List Nat} (hnd 
               · rw [validateGraph_dangling, terminalOK_iff]
               · rw [validateGraph_deadEnd, noDeadEnd_iff hnd]
 
+/-! Entry points and deliveries: what can precede a node on a path of the step graph. -/
+
+theorem reach_last {R : Node → Node → Prop} {a c : Node} (h : Reach R a c) : a = c ∨ ∃ b, Reach R a b ∧ R b c := by
+  cases h with
+  | refl => exact Or.inl rfl
+  | tail hab hbc => exact Or.inr ⟨_, hab, hbc⟩
+
+/-- the only edges into a step come from the event types it accepts -/
+theorem edge_into_step {W : List Step} {y : Node} {n : Nat} (h : Edge W y (.step n)) :
+    ∃ s ∈ W, ∃ c ∈ s.accepted, y = .ev c ∧ s.name = n := by
+  generalize hx : Node.step n = x at h
+  cases h with
+  | consume hs hc => exact ⟨_, hs, _, hc, rfl, (Node.step.inj hx).symm⟩
+  | produce _ _ _ => cases hx
+
+/-- the only edges into an event type come from the steps returning it -/
+theorem edge_into_event {W : List Step} {y : Node} {c : Cls} (h : Edge W y (.ev c)) :
+    ∃ s ∈ W, c ∈ s.returns ∧ c ≠ cNone ∧ y = .step s.name := by
+  generalize hx : Node.ev c = x at h
+  cases h with
+  | consume _ _ => cases hx
+  | produce hs hc hn => cases hx; exact ⟨_, hs, hc, hn, rfl⟩
+
+/-- an event type is *fed* when execution can put an instance of it on the queue: it is the start type, a
+HumanResponseEvent type (sent in from outside) or some step returns it.  StepFailedEvent is fed only when a step
+returns it: the engine hands it to the owning handler by name, the graph has no entry point for it. -/
+def Fed (H : Hier) (W : List Step) (c : Cls) : Prop :=
+  StartType H W c ∨ IsA H c cHumanResponse ∨ (Returned W c ∧ c ≠ cNone)
+
+/-- a step that is not a handler and accepts only event types nothing feeds is not forward-reachable -/
+theorem unfed_step_unreachable {H : Hier} {W : List Step} (hnd : (names W).Nodup) {s : Step} (hs : s ∈ W)
+    (hh : s.handler = false) (hacc : ∀ c ∈ s.accepted, ¬Fed H W c) :
+    ¬∃ seed, InputSeed H W seed ∧ Reach (Edge W) seed (.step s.name) := by
+  rintro ⟨seed, hseed, hr⟩
+  rcases reach_last hr with rfl | ⟨y, hry, he⟩
+  · obtain ⟨s', hs', hh', hn⟩ := hseed
+    have := step_of_name hnd hs' hs hn
+    subst this
+    rw [hh] at hh'; cases hh'
+  · obtain ⟨s', hs', c, hc, rfl, hn⟩ := edge_into_step he
+    have := step_of_name hnd hs' hs hn
+    subst this
+    apply hacc c hc
+    rcases reach_last hry with rfl | ⟨z, _, he'⟩
+    · rcases hseed with hst | ⟨_, hhr⟩
+      · exact Or.inl hst
+      · exact Or.inr (Or.inl hhr)
+    · obtain ⟨s'', hs'', hc', hn', _⟩ := edge_into_event he'
+      exact Or.inr (Or.inr ⟨⟨s'', hs'', hc'⟩, hn'⟩)
+
 end C23
